@@ -5,4 +5,4 @@ Require Import ExtrOcamlBasic.
 Extraction "model.ml"
   Dial.run_case Dial.cfg_src Dial.srv0 Dial.closes Dial.arm_clear Dial.arm_tls Dial.ended
   Dial.plain_impl Dial.login_impl Dial.cram_impl Dial.xoauth2_impl
-  Dial.src_fx_close Dial.src_fx_quit Dial.src_fx_arm.
+  Dial.src_fx_close Dial.src_fx_quit Dial.src_fx_arm Dial.src_fx_send.
